@@ -36,6 +36,9 @@ VIEW_FUNCS = {
     "getattr", "next", "functools.partial", "vars", "memoryview", "map", "filter",
     "dask.delayed", "dask.array.from_delayed", "dask.array.map_blocks",
 }
+# builtins that build a new container around the elements of their argument
+NEW_CONTAINER_FUNCS = {"dict", "list", "set", "frozenset", "sorted", "tuple", "builtins.dict", "builtins.list", "builtins.set", "builtins.sorted",
+                       "builtins.tuple", "builtins.frozenset", "collections.OrderedDict", "copy.copy"}
 # functions that return a fresh object not sharing memory with any argument
 FRESH_FUNCS = {
     "numpy.array", "numpy.copy", "numpy.stack", "numpy.concatenate", "numpy.take", "numpy.where",
@@ -661,6 +664,8 @@ class _Ctx:
                     self.sink(self._cur_stmt, f"{dotted}(...) writes its first argument", args[0].roots,
                               on_self=on_self)
                 return FRESH
+            if dotted in NEW_CONTAINER_FUNCS:
+                return holder(*allv)        # a NEW container: writing into it does not touch the argument, its elements are shared
             if dotted in FRESH_FUNCS:
                 return AV(EMPTY, KIND_OF_FUNC.get(dotted))
             if dotted in VIEW_FUNCS:
@@ -745,6 +750,15 @@ class _Ctx:
             kind = k2 if kind in ("?", k2) else None
         return AV(roots, None if kind == "?" else kind, holds)
 
+    def _complex_only_class(self):
+        ci = self.fi.cls
+        if ci is None:
+            return False
+        v, _ = ci.find_class_attr("_req_dtype")
+        if not isinstance(v, (ast.Tuple, ast.List)) or not v.elts:
+            return False
+        return all("complex" in norm(x) for x in v.elts)
+
     def _call_method(self, e, name, recv: AV, recv_node, args, kws, starkw, allv):
         stmt = self._cur_stmt
         # super().m(...)
@@ -757,6 +771,10 @@ class _Ctx:
                                                receiver=self.env.get(self.selfname, FRESH))
             return view_of(*allv)
         if recv.kind == "handle":
+            return FRESH
+        if name in ("conj", "conjugate") and not args and self._complex_only_class() and recv.roots and recv.roots <= {self.selfname}:
+            # ndarray.conj() hands back the array itself only for non-complex data; the data of this class is complex by its
+            # dtype contract (_req_dtype), so the conjugate is a new array
             return FRESH
         if recv.kind in ("str", "scalar", "time") and name in FRESH_METHODS:
             return FRESH
